@@ -13,10 +13,12 @@ PROPS["C11"] = dict(
          "the whole array is compared every 64 operations. Accesses honouring the MMIO window are steered to side-effect-free "
          "probe registers (0x000, 0x7FF, timer start 0x24/0x26/0x34/0x36, ICU vector 0x214). distinct_nontrivial = distinct "
          "(operation/addressing form, memory region prog/bank0/bank1, window/bypassed/memory, probe register) keys executed and compared",
-    floors={Q: {"ops": 1500000, "guest_instructions": 400000, "guest_loads": 100000, "guest_stores": 100000, "fetch_probes": 50000,
-                "mmio_window_writes": 20000, "mmio_window_reads": 20000, "mmio_window_zpage1_assert": 5000,
-                "bypass_writes_inside_window": 5000, "bypass_reads_inside_window": 5000, "full_compares": 20000,
-                "mmio_bases_probed": 1000, "mmio_documented_positions_probed": 64, "cases_user_memory": 100, "cases_owned_memory": 100, "z_page_switches": 10000},
+    floors={Q: {"ops": 5000000, "guest_instructions": 1800000, "guest_loads": 500000, "guest_stores": 600000, "fetch_probes": 300000,
+                "guest_program_loads": 200000, "guest_movd": 100000, "guest_movp_mem": 100000,
+                "mmio_window_writes": 200000, "mmio_window_reads": 150000, "mmio_window_zpage1_assert": 150000,
+                "bypass_writes_inside_window": 30000, "bypass_reads_inside_window": 30000, "full_compares": 80000,
+                "mmio_bases_probed": 1000, "mmio_documented_positions_probed": 64, "cases_user_memory": 150,
+                "cases_owned_memory": 150, "z_page_switches": 100000, "config_through_window": 30000},
             T: {"ops": 150000000, "guest_instructions": 40000000, "mmio_window_writes": 2000000, "mmio_window_reads": 2000000,
                 "mmio_window_zpage1_assert": 500000, "mmio_bases_probed": 10000, "mmio_documented_positions_probed": 64, "full_compares": 2000000}},
     ready=True,
